@@ -10,8 +10,9 @@
 (*   dirty, allow, tagmsg, remote, dry, fetch   booleans                   *)
 (*   ignore     --ignore-vcs-tag (the start version is the config value:   *)
 (*              no fetch, no tag listing)                                  *)
-(*   unique     the uniqueness check is active (--set-version or tag scope *)
-(*              branch): one more tag listing, never a fetch               *)
+(*   unique     the uniqueness check is demanded (--set-version or tag     *)
+(*              scope branch); it also runs under --ignore-vcs-tag (since  *)
+(*              the repair of S14): one more tag listing, never a fetch    *)
 (*   failat     the VCS command that fails ("none" for none)               *)
 (* Expected(c) is the observable run, stated declaratively: the ordered    *)
 (* log is the full step list of the merged configuration cut after the     *)
@@ -37,7 +38,7 @@ PushName(c) == IF MTag(c) THEN "push_tag" ELSE "push"
 Opt(b, name) == IF b THEN <<name>> ELSE <<>>
 \* every step of a run in which nothing fails
 FullSteps(c) ==
-  Opt(c.fetch /\ c.remote /\ ~c.ignore, "fetch") \o Opt(~c.ignore, "lstags") \o Opt(c.unique, "lstags")
+  Opt(c.fetch /\ c.remote /\ ~c.ignore, "fetch") \o Opt(~c.ignore, "lstags") \o Opt(c.unique \/ c.ignore, "lstags")
   \o (IF c.dry THEN <<>>
       ELSE IF ~MCommit(c) THEN <<"write">>
       ELSE <<"status", "write">> \o Opt(c.pre # "absent", "prehook") \o <<"add", "commit">> \o Opt(c.post # "absent", "posthook")
